@@ -6,7 +6,8 @@ import hashlib, json, os, shutil, subprocess, sys, tempfile
 from concurrent.futures import ThreadPoolExecutor
 VERIF = os.path.dirname(os.path.dirname(os.path.abspath(__file__)))
 PY = '/venv/bin/python'
-SCRIPT = {'1': 'diff_test_xmlelement.py', '2': 'diff_test_container.py', '3': 'diff_test_schema_layer.py'}
+SCRIPT = {'1': 'diff_test_xmlelement.py', '2': 'diff_test_container.py', '3': 'diff_test_schema_layer.py', '4': 'diff_test_validation_io.py',
+          '6': 'diff_test_histories.py'}
 
 
 def sh(cmd, **kw):
@@ -25,6 +26,15 @@ def one(bid):
         t = sh(f"cd {tmp}/mut && {PY} -m pytest -q -p no:cacheprovider -x 2>&1 | tail -1")
         last = t.stdout.strip()
         tests_ok = ' passed' in last and 'failed' not in last and 'error' not in last
+        if bid.startswith('R'):
+            # an upstream-style repair of a recorded finding: its demonstration fails on the unchanged copy and passes on the repaired one
+            d_ref = sh(f"cd {path} && PYTHONPATH={tmp}/ref {PY} -W ignore demo.py", timeout=900)
+            d_mut = sh(f"cd {path} && PYTHONPATH={tmp}/mut {PY} -W ignore demo.py", timeout=900)
+            ok = tests_ok and d_ref.returncode != 0 and d_mut.returncode == 0
+            rec = {'ok': ok, 'base': sh('git -C /repo rev-parse --short HEAD').stdout.strip(), 'test_suite': last[:60], 'demo_exit_unchanged': d_ref.returncode,
+                   'demo_exit_repaired': d_mut.returncode}
+            json.dump(rec, open(os.path.join(path, 'confirmed.json'), 'w'), indent=1)
+            return bid, rec
         script = os.path.join(VERIF, 'benign', SCRIPT[bid[1]])
         os.makedirs(f"{tmp}/run")
         digests = {}
